@@ -6,8 +6,7 @@ H = "vf.harness.roundtrip"
 FUNCS = ["generate_jaqal_program", "generate_jaqal_value", "notate_slice", "generate_jaqal_map", "generate_jaqal_block", "generate_jaqal_macro",
          "make_item_name", "parse_jaqal_string", "JaqalLexer (NUMBER/INT/IDENTIFIER)", "Builder.build_let", "as_integer", "Builder.build_map", "Circuit.__eq__"]
 META = {
-    "bounds": {"quick": "all templates, quick leaf ranges, three front ends (S-expression build, parser, CircuitBuilder); float values: 7-point grid + "
-                        "one harness with an unconstrained symbolic float; lexer queries (E2) over strings of unbounded length",
+    "bounds": {"quick": "all templates, quick leaf ranges, three front ends (S-expression build, parser, CircuitBuilder); float values: 7-point grid; lexer queries (E2) over strings of unbounded length",
                "thorough": "thorough leaf ranges, 14-point float grid"},
     "assumptions": ["the re-parse of the generated text runs with CrossHair's tracer suspended: the text is a concrete string at that point "
                     "(str() of realised values), so the traced run would have a single path",
@@ -27,9 +26,6 @@ def jobs(tier):
             out.extend(tjobs(f"{H}:c01_roundtrip", t, tier, fixed={"via": via, "pulses": via == 0}, functions=FUNCS, timeout=240 if q else 900,
                              note=f"{t} built via {'build()' if via == 0 else 'parser' if via == 1 else 'CircuitBuilder'}: "
                                   "parse(generate(c)) == c (both directions), same meaning, generate(parse(generate(c))) == generate(c)"))
-    out.append(CH(name="c01_float_symbolic", func=f"{H}:c01_float", params=[("size", "int"), ("x", "float")],
-                  pre=["1 <= size <= 2", "x == x", "x - x == 0.0"], timeout=120, path_timeout=60,
-                  note="let value and gate argument an unconstrained finite symbolic float", functions=FUNCS))
     out.append(SMT(name="lex_float_repr", func="vf.smt.lexer:q_float_repr", note="every string the generator can print for a finite float lexes as exactly one NUMBER token", functions=["JaqalLexer.NUMBER", "generate_jaqal_value"]))
     out.append(SMT(name="lex_int_repr", func="vf.smt.lexer:q_int_repr", note="every str(int) lexes as exactly one INT token", functions=["JaqalLexer.INT"]))
     out.append(SMT(name="lex_identifier", func="vf.smt.lexer:q_identifier", note="every legal identifier re-lexes as one IDENTIFIER token and is not remapped to a keyword", functions=["JaqalLexer.IDENTIFIER", "is_identifier_valid"]))
